@@ -22,13 +22,6 @@ for f in sorted(glob.glob(os.path.join(vlib.VERIF, "findings", "F*", "trace_pinn
     r = vlib.validate_batch("MuxTrace", "MuxTrace", f)
     report(f"pinned trace of {fid} is rejected", len(r["failures"]) >= 1)
 
-# 1b. the witness of the open finding F19: accepted by the model of the code, NoOrphanWriter violated on it
-f19 = os.path.join(vlib.VERIF, "findings", "F19", "trace_witness.ndjson")
-r1 = vlib.validate_once("MuxTrace", "MuxTrace", f19)
-r2 = vlib.validate_once("MuxTrace", "MuxTrace_orphan", f19)
-report("witness trace of F19 conforms to the model of the code and violates NoOrphanWriter",
-       r1["accepted"] and not r2["accepted"] and r2.get("invariant") == "NoOrphanWriter")
-
 # 2. a corrupted field in an accepted trace is rejected at that line
 sched = os.path.join(vlib.VERIF, "findings", "F1", "schedule.json")
 d = vlib.build_harness(["mux_sim"])
